@@ -15,8 +15,9 @@
 (*                                connection itself advertised             *)
 (*                                (Ack!OwedIsAcked, bounded)               *)
 (*   SecondPacketNotAcknowledgedAtOnce   once two ack-eliciting 1-RTT      *)
-(*                                packets are unacknowledged the ACK goes  *)
-(*                                out without waiting for the timer        *)
+(*                                packets are unacknowledged, or one has   *)
+(*                                arrived out of order (13.2.1), the ACK   *)
+(*                                goes out without waiting for the timer   *)
 (*                                (RFC 9000 13.2.2; not judged when the    *)
 (*                                ACK_FREQUENCY extension moves the        *)
 (*                                threshold)                               *)
@@ -25,8 +26,8 @@ EXTENDS Naturals, Integers, Sequences, FiniteSets, TLC, Json, IOUtils
 
 Rec == ndJsonDeserialize(IOEnv.TRACE)
 N == Len(Rec)
-VARIABLES l, bad, rcvd, fresh, due, cnt, imm, mad, who, late, ackfreq, deviations, cur
-vars == <<l, bad, rcvd, fresh, due, cnt, imm, mad, who, late, ackfreq, deviations, cur>>
+VARIABLES l, bad, rcvd, fresh, due, cnt, imm, lae, um, mad, who, late, ackfreq, deviations, cur
+vars == <<l, bad, rcvd, fresh, due, cnt, imm, lae, um, mad, who, late, ackfreq, deviations, cur>>
 e == Rec[l]
 Is(k) == l <= N /\ e.ev = k
 Flag(c, name) == IF c THEN {} ELSE {name}
@@ -34,16 +35,16 @@ At(f, a, d) == IF a \in DOMAIN f THEN f[a] ELSE d
 Set(f, a, v) == IF a \in DOMAIN f THEN [f EXCEPT ![a] = v] ELSE f @@ (a :> v)
 Slack == 5000
 
-TInit == /\ l = 1 /\ bad = {} /\ rcvd = <<>> /\ fresh = <<>> /\ due = <<>> /\ cnt = <<>> /\ imm = <<>> /\ mad = <<>> /\ who = <<>>
+TInit == /\ l = 1 /\ bad = {} /\ rcvd = <<>> /\ fresh = <<>> /\ due = <<>> /\ cnt = <<>> /\ imm = <<>> /\ lae = <<>> /\ um = <<>> /\ mad = <<>> /\ who = <<>>
          /\ late = 0 /\ ackfreq = FALSE /\ deviations = {} /\ cur = <<0>>
-Reset == /\ Is("Reset") /\ bad' = {} /\ rcvd' = <<>> /\ fresh' = <<>> /\ due' = <<>> /\ cnt' = <<>> /\ imm' = <<>> /\ mad' = <<>> /\ who' = <<>>
+Reset == /\ Is("Reset") /\ bad' = {} /\ rcvd' = <<>> /\ fresh' = <<>> /\ due' = <<>> /\ cnt' = <<>> /\ imm' = <<>> /\ lae' = <<>> /\ um' = <<>> /\ mad' = <<>> /\ who' = <<>>
          /\ late' = e.late /\ ackfreq' = e.ackfreq /\ deviations' = {} /\ cur' = <<e.run>> /\ l' = l + 1
 
 Mad == /\ Is("Mad") /\ mad' = Set(mad, <<e.n, e.c>>, e.mad) /\ bad' = bad /\ l' = l + 1
-       /\ UNCHANGED <<rcvd, fresh, due, cnt, imm, who, late, ackfreq, deviations, cur>>
+       /\ UNCHANGED <<rcvd, fresh, due, cnt, imm, lae, um, who, late, ackfreq, deviations, cur>>
 Conn == /\ Is("Conn") /\ who' = Set(who, <<e.n, e.c>>, e.uid) /\ bad' = bad /\ l' = l + 1
         /\ due' = Set(due, e.uid, -1) /\ fresh' = Set(fresh, e.uid, {})
-        /\ cnt' = Set(cnt, e.uid, 0) /\ imm' = Set(imm, e.uid, -1)
+        /\ cnt' = Set(cnt, e.uid, 0) /\ imm' = Set(imm, e.uid, -1) /\ lae' = Set(lae, e.uid, -1) /\ um' = Set(um, e.uid, -1)
         /\ UNCHANGED <<rcvd, mad, late, ackfreq, deviations, cur>>
 
 \* an acknowledgement owed since `due` has not been sent although its time is up
@@ -52,6 +53,17 @@ Overdue(u, t, m) == At(due, u, -1) # -1 /\ ~ackfreq /\ t > At(due, u, -1) + m + 
 RECURSIVE AddAll(_, _, _, _)
 AddAll(f, u, pks, i) == IF i = 0 THEN f
                         ELSE AddAll(Set(f, <<u, pks[i].sp>>, At(f, <<u, pks[i].sp>>, {}) \cup {pks[i].pn}), u, pks, i - 1)
+
+\* fold the ack-eliciting 1-RTT packets of one datagram: <<largest so far, one arrived out of order>>
+RECURSIVE Ooo(_, _, _, _, _)
+Ooo(pks, i, la, have, out) ==
+  IF i > Len(pks) THEN <<la, out>>
+  ELSE IF ~(pks[i].ae /\ pks[i].sp = 2) THEN Ooo(pks, i + 1, la, have, out)
+  ELSE LET p == pks[i].pn
+           \* (the implementation remembers the last 128 packet numbers; a gap further back is beyond it)
+           lo == IF la + 1 > p - 100 THEN la + 1 ELSE p - 100
+           o == la # -1 /\ (p < la \/ \E q \in lo .. (p - 1) : q \notin have)
+       IN Ooo(pks, i + 1, IF p > la THEN p ELSE la, have, out \/ o)
 
 Rcv ==
   /\ Is("Rcv")
@@ -70,8 +82,21 @@ Rcv ==
        /\ LET k == IF e.all /\ e.est /\ e.keys
                       THEN At(cnt, u, 0) + Cardinality({i \in 1 .. Len(e.pks) : e.pks[i].ae /\ e.pks[i].sp = 2})
                       ELSE At(cnt, u, 0)
+              \* ... and so does an ack-eliciting packet that arrives out of order: below the largest
+              \* one so far, or above it with a gap in between (RFC 9000 13.2.1)
+              have == At(rcvd', <<u, 2>>, {})
+              o == Ooo(e.pks, 1, At(lae, u, -1), have, FALSE)
+              judged == e.all /\ e.est /\ e.keys
+              \* packets that may or may not have been processed: the largest one so far is only known
+              \* again once a certainly processed packet is at least as large
+              dpn == {e.pks[i].pn : i \in {j \in 1 .. Len(e.pks) : e.pks[j].ae /\ e.pks[j].sp = 2}}
+              um1 == IF judged \/ dpn = {} THEN At(um, u, -1)
+                     ELSE LET m == CHOOSE x \in dpn : \A y \in dpn : y <= x IN IF m > At(um, u, -1) THEN m ELSE At(um, u, -1)
+              known == At(lae, u, -1) >= um1
           IN /\ cnt' = Set(cnt, u, k)
-             /\ imm' = IF k >= 2 /\ At(imm, u, -1) = -1 THEN Set(imm, u, e.t) ELSE imm
+             /\ lae' = IF judged THEN Set(lae, u, o[1]) ELSE lae
+             /\ um' = Set(um, u, um1)
+             /\ imm' = IF (k >= 2 \/ (judged /\ known /\ o[2])) /\ At(imm, u, -1) = -1 THEN Set(imm, u, e.t) ELSE imm
        /\ bad' = bad
   /\ l' = l + 1 /\ UNCHANGED <<mad, who, late, ackfreq, deviations, cur>>
 
@@ -91,7 +116,7 @@ Snd ==
        /\ due' = IF dataAck \/ ~e.est THEN Set(due, u, -1) ELSE due
        /\ cnt' = IF dataAck \/ ~e.est THEN Set(cnt, u, 0) ELSE cnt
        /\ imm' = IF dataAck \/ ~e.est THEN Set(imm, u, -1) ELSE imm
-  /\ l' = l + 1 /\ UNCHANGED <<rcvd, mad, who, late, ackfreq, deviations, cur>>
+  /\ l' = l + 1 /\ UNCHANGED <<rcvd, lae, um, mad, who, late, ackfreq, deviations, cur>>
 
 \* KNOWN FINDING: poll_transmit decides per packet whether it will be ack-eliciting from what is
 \* queued; with stream data queued and the congestion window full (or the pacer not ready) it sends
@@ -111,7 +136,7 @@ Tick ==
        /\ due' = IF u # -1 /\ (~e.est \/ overdue) THEN Set(due, u, -1) ELSE due
        /\ cnt' = IF u # -1 /\ (~e.est \/ atOnce) THEN Set(cnt, u, 0) ELSE cnt
        /\ imm' = IF u # -1 /\ (~e.est \/ atOnce) THEN Set(imm, u, -1) ELSE imm
-  /\ l' = l + 1 /\ UNCHANGED <<rcvd, fresh, mad, who, late, ackfreq, cur>>
+  /\ l' = l + 1 /\ UNCHANGED <<rcvd, fresh, lae, um, mad, who, late, ackfreq, cur>>
 
 TNext == (Reset \/ Mad \/ Conn \/ Rcv \/ Snd \/ Tick)
          /\ (deviations' \subseteq deviations
